@@ -68,8 +68,15 @@ def _open(nest):
     return lines, ind
 
 
-def function_program(n, nest, call):
+WRAPS = {'ifexp': "(%s if a > 0 else 'no')", 'and': '(a > 0 and %s)', 'or': '(a < 0 or %s)'}
+
+
+def function_program(n, nest, call, wrap=None):
+    """`wrap` puts the call into a conditional expression / and / or operand: the converter turns those
+    operands into lambdas, whose frames show only the names the operand itself references."""
     name, expr = call[0], call[1]
+    if wrap:
+        expr = WRAPS[wrap] % expr
     lines = ['def f_%d(a, b):' % n, '    u = a + 10', "    v = 'vv'", '    out = []', '    x = -1']
     o, ind = _open(nest)
     lines += o
@@ -78,7 +85,7 @@ def function_program(n, nest, call):
     lines.append('    return out')
     return {'name': 'f_%d' % n, 'kind': name.split('_')[0], 'call': name, 'nest': list(nest), 'src': '\n'.join(lines) + '\n',
             'entry': 'f_%d' % n, 'cls': None, 'args': [[1, 5], [2, 7]], 'extra': call[2] if len(call) > 2 else None,
-            'needs': list(call[3]) if len(call) > 3 else []}
+            'needs': (['x'] if wrap and name == 'eval_body_local' else list(call[3]) if len(call) > 3 else []), 'wrap': wrap}
 
 
 def method_program(n, nest, call, decorator=None):
@@ -136,7 +143,7 @@ def frame_programs(tier, rng):
     calls = [('f', c) for c in EVAL_CALLS] + [('f', c) for c in LOCALS_CALLS] + [('f', c) for c in GLOBALS_CALLS] + \
             [('m', c) for c in SUPER_CALLS]
     space = len(nests) * len(calls)
-    cap = 420 if tier == 'quick' else 1800
+    cap = 420 if tier == 'quick' else 1400
     combos = [(ne, c) for ne in nests for c in calls]
     deep = [x for x in combos if len(x[0]) >= 2]
     shallow = [x for x in combos if len(x[0]) < 2]
@@ -147,11 +154,25 @@ def frame_programs(tier, rng):
     for ne, (kind, c) in shallow + deep:
         progs.append(function_program(n, ne, c) if kind == 'f' else method_program(n, ne, c))
         n += 1
+    # the same calls as operands of a conditional expression / and / or (functionalised as lambdas)
+    fcalls = [c for c in EVAL_CALLS + LOCALS_CALLS + GLOBALS_CALLS]
+    wrapped = [(ne, c, w) for ne in nests if len(ne) <= 1 for c in fcalls for w in sorted(WRAPS)]
+    space += len(wrapped)
+    if tier == 'quick':
+        pick = rng.randrange(len(NEST_KINDS))
+        wrapped = [x for x in wrapped if not x[0] or x[0] == (NEST_KINDS[pick],)]
+        wrapped = [x for k, x in enumerate(wrapped) if not x[0] or k % 3 == pick % 3]
+    for ne, c, w in wrapped:
+        progs.append(function_program(n, ne, c, wrap=w))
+        n += 1
     after = [(ne, c) for ne in nests if ne for c in AFTER_CALLS]
     space += len(after)
     if tier == 'quick':
         off = rng.randrange(2)
         after = [x for x in after if len(x[0]) == 1] + [x for x in after if len(x[0]) > 1][off::2]
+    else:
+        off = rng.randrange(3)
+        after = [x for x in after if len(x[0]) <= 2] + [x for x in after if len(x[0]) > 2][off::3]
     for ne, c in after:
         progs.append(after_program(n, ne, c))
         n += 1
